@@ -19,6 +19,10 @@ func family(prop string, ki *tsrc.KeyInfo) string {
 		return true
 	}
 	switch {
+	case strings.HasPrefix(k, "fmtfile:") && strings.Count(k, "fmt\\\"") >= 2 && !has("strings"):
+		return "imports-duplicate-import"
+	case strings.HasPrefix(k, "fmtfile:"):
+		return "imports-delete-while-ranging"
 	case has("title=", "&") && !has("title={"), has(`title='`):
 		return "attr-reescape"
 	case has("templ t(") && has("//") || has("templ t(") && has("/*") || has("templ /*"):
@@ -63,6 +67,10 @@ func family(prop string, ki *tsrc.KeyInfo) string {
 
 func anchor(f string) string {
 	switch f {
+	case "imports-delete-while-ranging":
+		return "cmd/templ/imports/process.go: Process (astutil.DeleteNamedImport shrinks firstGoNodeInTemplate.Imports while the loop ranges over it: the import after each deleted one is skipped)"
+	case "imports-duplicate-import":
+		return "cmd/templ/imports/process.go: Process (the single-import rewrite counts import specs before duplicates are merged)"
 	case "attr-reescape":
 		return "parser/v2/types.go: ConstantAttribute.String (value written back unescaped; parser/v2/elementparser.go: constantAttributeParser unescapes it)"
 	case "comment-in-signature":
